@@ -802,6 +802,36 @@ theorem fisherTotal_value (eps : K) (g00 : List K) (g0r : List (List K)) (ps0 : 
     exact hz2 trip
   have hws : w0 :: trip.map (·.2.1) = (((ps0, g00 :: g0r), w0, F0) :: trip).map (·.2.1) := by simp
   rw [hz, hws, fisherAcc_value g00.length eps _ h]
+/-- all summands of `calc_fisher_matrix_total(var, weights)` computed: schedule `j` contributes `w_j · F_j` -/
+theorem fisherQtTerms_value (matA : List (List K)) (vecB : List K) (numSched : Nat) (var ws : List K) (eps : K) (sv : Nat)
+    (js : List Nat) (Fs : Nat → List (List K)) (w : Nat → K)
+    (hw : ∀ j ∈ js, ws[j]? = some (w j))
+    (hF : ∀ j ∈ js, fisherQt matA vecB numSched j var eps = .ok (sv, Fs j)) :
+    js.mapM (fisherQtTerm matA vecB numSched var ws eps) = .ok (js.map fun j => (sv, scaleRows (w j) (Fs j))) := by
+  induction js with
+  | nil => rfl
+  | cons j r ih =>
+    have h1 : fisherQtTerm matA vecB numSched var ws eps j = .ok (sv, scaleRows (w j) (Fs j)) := by
+      simp [fisherQtTerm, hw j (List.mem_cons_self ..), hF j (List.mem_cons_self ..), bind, Except.bind, pure, Except.pure, scaleRows]
+    rw [List.mapM_cons, h1, ih (fun k hk => hw k (List.mem_cons_of_mem _ hk)) (fun k hk => hF k (List.mem_cons_of_mem _ hk))]
+    rfl
+
+/-- C19 (`StandardQTomography.calc_fisher_matrix_total`, value): with one weight per schedule and every schedule's Fisher matrix `F_j`
+(of the common size `sv`), the call returns `w_0·F_0 + w_1·F_1 + …` (python `sum`), for any number `numSched ≥ 1` of schedules. -/
+theorem fisherQtTotal_value (matA : List (List K)) (vecB : List K) (numSched : Nat) (var ws : List K) (eps : K) (sv : Nat)
+    (Fs : Nat → List (List K)) (w : Nat → K)
+    (hw : ∀ j < numSched + 1, ws[j]? = some (w j))
+    (hF : ∀ j < numSched + 1, fisherQt matA vecB (numSched + 1) j var eps = .ok (sv, Fs j)) :
+    fisherQtTotal matA vecB (numSched + 1) var ws eps
+      = .ok (sv, ((List.range (numSched + 1)).tail.foldl (fun acc j => addRows acc (scaleRows (w j) (Fs j)))
+          (scaleRows (w 0) (Fs 0)))) := by
+  unfold fisherQtTotal
+  rw [fisherQtTerms_value matA vecB (numSched + 1) var ws eps sv (List.range (numSched + 1)) Fs w
+    (fun j hj => hw j (List.mem_range.mp hj)) (fun j hj => hF j (List.mem_range.mp hj))]
+  simp only [bind, Except.bind]
+  rw [List.range_succ_eq_map]
+  simp only [List.map_cons, List.map_map, sumTerms, List.tail_cons, List.foldl_map]
+  rfl
 end totalValue
 
 /-- C19 (`calc_direct_sum`, squareness): a block is accepted exactly when it is square. -/
@@ -879,5 +909,9 @@ example : expectJoint (K := Rat) [(Vec.ofFn fun i : Fin 2 => if i.val = 0 then (
     (fun cs => match cs with
       | [c1, c2] => ((empi (K := Rat) c1 2).get 0 - 1/4) * ((empi (K := Rat) c2 3).get 1 - 1/2)
       | _ => 0) = 0 := by decide +kernel
+
+/-- `fisherQtTotal_value`: two schedules with two outcomes each, weights 2 and 3 -/
+example : (fisherQtTotal (K := Rat) [[1, 0], [-1, 0], [0, 1], [0, -1]] [1/2, 1/2, 1/4, 3/4] 2 [0, 0] [2, 3] defaultEps).toOption
+    = some (2, [[2 * 4, 0], [0, 3 * (16/3)]]) := by decide +kernel
 
 end QM.C19
